@@ -40,10 +40,6 @@ T_BASE = 0x00C0FFEE00000000        # distinctive record times: record starts can
 REGNAMES = ["rdi", "rsi", "rdx", "rcx", "r8", "r9"]
 M64 = (1 << 64) - 1
 
-# switch for the lead: True = an unlisted defect witness is reported as FRAMEWORK.md says (VIOLATION);
-# False = it is logged and put into the evidence until known-findings.txt / a fix: commit decides.
-STRICT_UNLISTED = os.environ.get("VERIF_STRICT_FINDINGS", "") == "1"
-
 
 # ================================================================== case description
 # A case is a JSON-able dict:
@@ -81,9 +77,7 @@ class Gen:
     def string(self, n=None, kind=None):
         r = self.rng
         if n is None:
-            n = r.choice([0, 1, 2, 3, 4, 5, 6, 7, 8, 13, 30, 60, 94, 95, 96, 97, 99, 100, 101, 102, 150, 255, 300])
-        if n == ARG_STR_MAX:          # the len-98 class is a known defect: dedicated witness only
-            n = 97
+            n = r.choice([0, 1, 2, 3, 4, 5, 6, 7, 8, 13, 30, 60, 94, 95, 96, 97, 98, 98, 99, 100, 101, 102, 150, 255, 300])
         kind = kind or r.choice(["ascii", "ascii", "ascii", "special", "high", "utf8", "any"])
         if kind == "ascii":
             s = bytes(r.choice(b"abcdefghijklmnopqrstuvwxyzABCDEFGHIJKLMNOPQRSTUVWXYZ0123456789 _-+/.:") for _ in range(n))
@@ -125,7 +119,7 @@ class Gen:
             # one string of a boundary length behind 0..3 ints/strings (every residue of the write pointer mod 8)
             for _ in range(r.randrange(0, 3)):
                 r.choice([self.add_int, self.add_char, self.add_str])()
-            n = r.choice([0, 1, 2, 3, 94, 95, 96, 97, 99, 100, 101, 102, 200])
+            n = r.choice([0, 1, 2, 3, 94, 95, 96, 97, 98, 99, 100, 101, 102, 200])
             self.add_str(n=n)
             c["tags"].append("strlen=%d" % n)
             for _ in range(r.randrange(0, 3)):
@@ -245,7 +239,7 @@ class Gen:
         ch = r.choice([0, 8, 10, 39, 34, 92, 65, 0x7f, 0x80, 0xff, r.randrange(256)])
         w = (r.getrandbits(56) << 8 | ch) if r.random() < 0.5 else ch
         self.put(where, w)
-        bits = r.choice(["", "", "8", "16", "32"])       # /c64 is a known-defect class: dedicated witness only
+        bits = r.choice(["", "", "8", "16", "32", "64"])
         self._c["specs"].append(name + "/c" + bits + sfx)
         self._c["actual"].append(["int", w, list(where)])
         self._c["tags"].append("fmt=c")
@@ -459,24 +453,24 @@ class Gen:
         c["actual"].pop()
 
 
-# ================================================================== dedicated witnesses of known defects
+# ================================================================== regression cases of the repaired defects, witness of the listed one
 def witness_len98():
     s = bytes(65 + i % 26 for i in range(ARG_STR_MAX))
     return {"specs": ["arg1/s"], "rspecs": [], "regs": ["@S0", 0, 0, 0, 0, 0], "stack": [], "ret": [0, 0],
-            "strings": {0: s.hex()}, "objs": {}, "actual": [["str", 0]], "ractual": [], "tags": ["witness=len98"]}
+            "strings": {0: s.hex()}, "objs": {}, "actual": [["str", 0]], "ractual": [], "tags": ["regression=len98"]}
 
 
 def witness_c64():
     return {"specs": ["arg1/c64", "arg2/i32"], "rspecs": [], "regs": [0x1122334455667741, 7, 0, 0, 0, 0], "stack": [],
-            "ret": [0, 0], "strings": {}, "objs": {}, "actual": [["int", 0x1122334455667741], ["int", 7]], "ractual": [],
-            "tags": ["witness=c64"]}
+            "ret": [0, 0], "strings": {}, "objs": {}, "actual": [["int", 0x1122334455667741, ["reg", 0]], ["int", 7, ["reg", 1]]], "ractual": [],
+            "tags": ["regression=c64"]}
 
 
 def witness_overflow():
     # 1016 bytes of struct, then "ab": total 1020 (accepted) and the NUL lands at argbuf[1024]
     return {"specs": ["arg30/t1016%stack+1", "arg1/s"], "rspecs": [], "regs": ["@S0", 0, 0, 0, 0, 0], "stack": [1, 2, 3],
             "ret": [0, 0], "strings": {0: b"ab".hex()}, "objs": {}, "actual": [["struct"], ["str", 0]], "ractual": [],
-            "tags": ["witness=overflow"]}
+            "tags": ["regression=overflow"]}
 
 
 def witness_overflow_many():
@@ -485,7 +479,7 @@ def witness_overflow_many():
     specs = ["arg%d" % i for i in range(1, 101)] + ["arg%d/x%%stack+%d" % (i, i) for i in range(1, 41)]
     return {"specs": specs, "rspecs": [], "regs": [1, 2, 3, 4, 5, 6],
             "stack": [0x0101010101010101 * (i % 200 + 1) for i in range(23)], "ret": [0, 0], "strings": {}, "objs": {},
-            "actual": [["int", 0]] * len(specs), "ractual": [], "tags": ["witness=overflow-many"], "skip_judge": True}
+            "actual": [["int", 0]] * len(specs), "ractual": [], "tags": ["regression=overflow-many"]}
 
 
 def witness_neg32():
@@ -496,8 +490,10 @@ def witness_neg32():
             "ractual": [["int", 0xfffffffb, ["ret", 0]]], "tags": ["witness=auto-neg32"]}
 
 
-WITNESSES = [("len98", witness_len98), ("c64", witness_c64), ("auto-neg32", witness_neg32), ("overflow", witness_overflow),
-             ("overflow-many", witness_overflow_many)]
+# repaired by fix: commits (known-findings.txt `fixed:` lines): ordinary cases now, judged like every other case
+REGRESSIONS = [witness_len98, witness_c64, witness_overflow, witness_overflow_many]
+# still present, listed in known-findings.txt: the generators stay out of the class, this is the witness
+WITNESSES = [("auto-neg32", witness_neg32)]
 
 
 # ================================================================== running the implementation
@@ -799,11 +795,12 @@ def coq_case(c):
             if n <= 4096 and len(pl) == n and imgp[4:4 + n] == pl:
                 cut, img = n, imgp[:4] + imgp[4 + n:]
         imgs.append((img, cut))
-    obs = ("{| o_img_entry := %s; o_img_exit := %s; o_cut_entry := %s; o_cut_exit := %s; o_stream := %s; "
-           "o_args_text := %s; o_ret_text := %s |}"
+    obs = ("{| o_img_entry := %s; o_img_exit := %s; o_cut_entry := %s; o_cut_exit := %s; o_hi_entry := %d; "
+           "o_hi_exit := %d; o_stream := %s; o_args_text := %s; o_ret_text := %s |}"
            % (blist(imgs[0][0]), blist(imgs[1][0]),
               "None" if imgs[0][1] is None else "Some %d" % imgs[0][1],
-              "None" if imgs[1][1] is None else "Some %d" % imgs[1][1], blist(o["stream"]),
+              "None" if imgs[1][1] is None else "Some %d" % imgs[1][1],
+              len(o["img_entry"]), len(o["img_exit"]), blist(o["stream"]),
               blist(o["args_text"] if o["args_text"] is not None else b"\0?"),
               blist(o["ret_text"] if o["ret_text"] is not None else b"\0?")))
     return ("(let i := %s in {| t_call := %s; t_obs := %s; t_aargs := [%s]; t_aret := [%s] |})"
@@ -943,7 +940,7 @@ class E2EGen:
         if kind == "str":
             if r.random() < 0.1:
                 return "(const char *)0", ["null"]
-            n = r.choice([0, 1, 2, 3, 5, 13, 30, 95, 97, 99, 110])
+            n = r.choice([0, 1, 2, 3, 5, 13, 30, 95, 97, 98, 99, 110])
             sv = "".join(r.choice("abcdefghijklmnopqrstuvwxyzABCDEFGHIJKLMNOPQRSTUVWXYZ0123456789 _") for _ in range(n))
             return '"%s"' % sv, ["strv", sv]
         if kind == "flt":
@@ -1244,55 +1241,34 @@ def count_cases(ctx, cases):
                  nontrivial=nontriv, tags=tags, sample=sample, size=size)
 
 
-def report_defect(ctx, pending, key, text, still, replay):
-    if ctx.kf.listed(ctx.prop, key) or STRICT_UNLISTED or not still:
-        ctx.known_finding(key, text, still, replay)
-    else:
-        ctx.log("DEFECT WITNESS (not yet listed in known-findings.txt, reported to the lead): %s: %s" % (key, text))
-        pending.append({"key": key, "what": text, "replay": ctx.write_replay(replay, "witness-" + key)})
+NEG32_TEXT = ("an argument or return value without a format (argN, documented as 'long int'; also what --auto-args emits "
+              "for long/unsigned long) whose value lies in 0xffff0001..0xffffffff is shown as a negative 32-bit number "
+              "(4294967295 -> -1)")
 
 
 def defect_witnesses(ctx, impl, extra=()):
-    """dedicated witnesses of the known defect classes (the generators stay out of them)"""
+    """dedicated witnesses of the listed defect classes (the generators stay out of them); everything goes
+    through ctx.known_finding: KNOWN-FINDING if listed, VIOLATION if not, silent once it stops reproducing"""
     cases = [f() for _, f in WITNESSES]
     batches, res = run_cases_through(ctx, impl, cases, "witness")
     if res is None:
         return
     pos = {id(c): (bi, i) for bi, b in enumerate(batches) for i, c in enumerate(b)}
-    bad = set(pos[id(c)] for c in cases if id(c) in pos and pos[id(c)] in set(res["violations"]))
-    mism = set(pos[id(c)] for c in cases if id(c) in pos and pos[id(c)] in set(res["mismatch"]))
-    pending = []
     for n, (key, _) in enumerate(WITNESSES):
         c = cases[n]
         if id(c) not in pos:
             continue                          # it crashed the traced process: reported by run_cases_through
         i = pos[id(c)]
         ctx.case(key=("witness", key), tags=c["tags"])
-        if i in mism:
+        if i in set(res["mismatch"]):
             ctx.violation("model and implementation disagree on the witness of known defect %s" % key,
-                          {"mode": "mismatch", "case": public(c), "observed": observed(c)}, False)
-        if key in ("len98", "c64", "auto-neg32"):
-            still = i in bad
-            text = {"auto-neg32": "an argument or return value without a format (`argN`, documented as 'long int'; also what "
-                                  "--auto-args emits for long/unsigned long) whose value lies in 0xffff0001..0xffffffff is "
-                                  "shown as a negative 32-bit number (4294967295 -> -1)",
-                    "len98": "a string argument of exactly ARG_STR_MAX (98) characters is shown as 95 characters + '...' "
-                             "although it fits (save_to_argbuf truncates before it looks for the NUL)",
-                    "c64": "`argN/c64` (char format, 8 bytes): get_argspec_string steps over 4 bytes instead of 8, every "
-                           "later argument of the call is shown from the wrong bytes (script readers: same)"}[key]
-        else:
-            hi = len(c["obs"]["img_entry"])
-            still = hi > 1024
-            text = {"overflow": "save_to_argbuf stores past the 1024-byte per-frame argument buffer: a string that ends "
-                                "exactly at the limit puts its NUL at argbuf[1024] on the success path (2 bytes on the "
-                                "failure path)",
-                    "overflow-many": "save_to_argbuf copies every scalar before it looks at the limit: 140 eight-byte "
-                                     "arguments store %d bytes past the frame's buffer" % max(0, hi - 1024)}[key]
-        replay = {"mode": "witness", "witness": key, "case": public(c), "observed": observed(c)}
-        report_defect(ctx, pending, key, text, still, replay)
+                          {"mode": "mismatch", "case": public(c), "observed": observed(c),
+                           "model": {k: v.hex() if "text" not in k else v.decode("latin-1")
+                                     for k, v in (model_detail(ctx, c) or {}).items()}}, False)
+        ctx.known_finding(key, NEG32_TEXT, i in set(res["violations"]),
+                          {"mode": "witness", "witness": key, "case": public(c), "observed": observed(c)})
     for key, text, still, replay in extra:
-        report_defect(ctx, pending, key, text, still, replay)
-    ctx.extra["defect_witnesses_pending_listing"] = pending
+        ctx.known_finding(key, text, still, replay)
 
 
 def corpus_cases():
@@ -1310,9 +1286,9 @@ def run(ctx):
     coq.prove(ctx, "C09")
     impl = Impl(ctx)
     g = Gen(ctx.rng)
-    cases = corpus_cases()
+    cases = corpus_cases() + [f() for f in REGRESSIONS]
     # every boundary string length behind 0 / 4 bytes (both residues of the write pointer mod 8), deterministically
-    for n in (0, 1, 2, 3, 94, 95, 96, 97, 99, 100, 101, 102):
+    for n in (0, 1, 2, 3, 94, 95, 96, 97, 98, 99, 100, 101, 102):
         for lead in (0, 1):
             c = g.blank("strlen-grid")
             c["tags"].append("strlen=%d" % n)
